@@ -387,6 +387,13 @@ def oracle_c02(case, per, late, fail):
         if completed and len(acks) != 1:
             fail("callback returned without acknowledging an ackable message", sig, evs)
             continue
+        crash = [e[1] for e in evs if e[0] == "crash"]
+        if crash and crash[0] != "CustomError" and not (M.get("raise_err") and crash[0] == "ConnectionError"):
+            # not a hook failure (outside the quantifier) and not callback(raise_err=True): the task outcome
+            # itself made callback raise
+            if len(acks) != 1:
+                fail("callback raised %s and left an ackable message unacknowledged" % crash[0], sig, evs)
+                continue
         # every prefix = every crash point: the ack is in the prefix only if the configured point is too
         for n in range(len(evs) + 1):
             P = evs[:n]
@@ -673,7 +680,7 @@ def gen_mws(r, tbl, side, p_raise=0.05):
     return out
 
 
-def gen_recv(r, focus="c02"):
+def gen_recv(r, focus="c02", allow_d10=True):
     tbl = gen_labels(r)
     lt_dummy = None
     nm = r.choice([1, 1, 2, 2, 3, 3, 4, 5, 6])
@@ -703,6 +710,10 @@ def gen_recv(r, focus="c02"):
             M["segs"] = r.choice([[], [], [r.randint(1, 6)], [r.randint(1, 5), r.randint(1, 5)]])
         msgs.append(M)
     case["msgs"] = msgs
+    if not allow_d10:
+        for M in msgs:   # finding D10 (sync function raising GeneratorExit) lives in the corpus, not in the random stream
+            if M["style"] == "sync" and M["out"] == {"raise": 8}:
+                M["out"] = {"raise": r.choice([3, 5, 6, 7])}
     # keep away from what the event loop / thread pool decides: duration = timeout (two timers tie) and a
     # sync body under a non-positive timeout (pool thread races the cancel)
     lt = LabelTable(case)
@@ -769,3 +780,47 @@ def count_recv(rep, case, per, late):
                 rep.count("hook:" + e[1])
                 if e[1] == "on_error":
                     rep.count("on_error-exc:" + EXC_NAMES.get(e[9], "?"))
+
+
+# ------------------------------------------------------------------------------------- finding D10
+D10_SIG = "sync_generator_exit"
+D10_WHAT = ("a SYNC task function raising GeneratorExit closes the callback coroutine: callback raises, no result is "
+            "stored and the message is not acknowledged (when_executed / when_saved)")
+
+
+def is_d10(case, sig):
+    i = sig.get("msg")
+    if case.get("type") != "recv" or i is None:
+        return False
+    M = case["msgs"][i]
+    return M["style"] == "sync" and M["out"] == {"raise": 8}
+
+
+def d10_known(pid):
+    return any(k["property"] == pid and k["status"] == "known" and k["signature"] == D10_SIG for k in C.load_known())
+
+
+class Failer:
+    """routes oracle failures to the report; failures inside the D10 region carry the signature flag, and as long
+    as the proposed known-findings entry is not merged they are listed as PENDING instead of failing the check"""
+
+    def __init__(self, rep, pid, case):
+        self.rep, self.pid, self.case = rep, pid, case
+        self.known = d10_known(pid)
+
+    def __call__(self, what, sig, evs):
+        d10 = is_d10(self.case, sig)
+        if d10 and not self.known:
+            self.rep.extra.setdefault("pending_findings", {}).setdefault(D10_SIG, 0)
+            self.rep.extra["pending_findings"][D10_SIG] += 1
+            return
+        self.rep.fail("%s: %s" % (self.pid, what), self.case, observed=evs, expected="see the property statement",
+                      sig=dict(sig, d10=d10))
+
+
+def finish(rep, pid):
+    pend = rep.extra.get("pending_findings", {})
+    if pend.get(D10_SIG):
+        print("PENDING-FINDING: property=%s %s (reproduced %d times; proposed entry: notes/proposed_known_findings.json)"
+              % (pid, D10_WHAT, pend[D10_SIG]))
+    return rep.finish({D10_SIG: lambda f: bool(f["sig"].get("d10"))}, {})
